@@ -19,6 +19,13 @@ Import ListNotations.
 Section MemoryLoc.
   Context {call key_input digest binding kbinding value src : Type}.
   Variable C : cfg call key_input digest binding kbinding value src.
+  (* ALIASES.  Several Memory objects may name ONE directory under different spellings (absolute / relative path, a
+     trailing "/.", a symlink): they share the store -- one M4 state -- but the location recorded in a
+     _FUNCTION_HASHES entry is the STRING, so each spelling is its own tag.  A function object reached through
+     spelling a is a model object of its own; [sibs i] lists the model objects that are the same Python function as
+     i (i included): when the entry of that function is (re)written through one of them, all the others -- at this
+     location and elsewhere -- are no longer vouched for. *)
+  Variable sibs : nat -> list nat.
 
   Notation state := (state call digest value src).
   Notation event := (event call digest).
@@ -36,14 +43,24 @@ Section MemoryLoc.
     | _ => None
     end.
 
-  (* what the other locations must forget after the step st --e--> st' at one location *)
+  Definition gained (st st' : state) (k : nat) : bool := mem_nat k (table st') && negb (mem_nat k (table st)).
+
+  (* what the OTHER locations must forget after the step st --e--> st' at one location *)
   Definition forgets (st st' : state) (e : event) : list event :=
     match e with
     | ClearMem => [Forget None]
     | _ => match target e with
-           | Some k => if mem_nat k (table st') && negb (mem_nat k (table st)) then [Forget (Some k)] else []
+           | Some k => if gained st st' k then map (fun j => Forget (Some j)) (sibs k) else []
            | None => []
            end
+    end.
+
+  (* ... and what THIS location forgets: the other spellings of the same function *)
+  Definition forgets_here (st st' : state) (e : event) : list event :=
+    match target e with
+    | Some k => if gained st st' k
+                then map (fun j => Forget (Some j)) (filter (fun j => negb (Nat.eqb j k)) (sibs k)) else []
+    | None => []
     end.
 
   Definition slot : Type := state * option mon.     (* None = the history stopped being admissible at this location *)
@@ -76,7 +93,8 @@ Section MemoryLoc.
         | None => (OSkip, sl)
         | Some s =>
             let (o, s') := slot_step s e in
-            (o, update_others L (forgets (fst s) (fst s') e) 0 (set_nth L s' sl))
+            let s'' := slot_apply s' (forgets_here (fst s) (fst s') e) in
+            (o, update_others L (forgets (fst s) (fst s') e) 0 (set_nth L s'' sl))
         end
     end.
 
